@@ -35,6 +35,20 @@ func main() {
 		}()
 	}
 	r := ev.New(id, tier)
-	f(r, os.Args[3:])
+	func() {
+		// A panic inside the harness (a fixture helper that assumes an operation of the code under test
+		// succeeds) after violations were recorded must not turn the verdict into "no verdict": the recorded
+		// violations are real executions. Without any violation it stays a broken harness (exit 2).
+		defer func() {
+			if p := recover(); p != nil {
+				if r.Violations() == 0 {
+					panic(p)
+				}
+				fmt.Fprintf(os.Stderr, "harness stopped early after %d violations: %v\n", r.Violations(), p)
+				r.Cap(fmt.Sprintf("the run stopped early (after the reported violations): %v", p))
+			}
+		}()
+		f(r, os.Args[3:])
+	}()
 	os.Exit(r.Finish())
 }
